@@ -138,7 +138,10 @@ class Interp(Ops, B.BuiltinsMixin):
                 v = self.import_module(imp[1])
             else:
                 src = imp[1]
-                if self.repo.has_module(src):
+                if self.repo.has_module(src) and (src == modname or imp[2] not in self.repo.module(src).order) \
+                        and self.repo.has_module(src + "." + imp[2]):
+                    v = ModuleV(src + "." + imp[2])      # `from . import submodule`
+                elif self.repo.has_module(src):
                     try:
                         v = self.module_global(src, imp[2])
                     except KeyError:
